@@ -272,7 +272,17 @@ def self_state_stores(fn, cls_methods=None, ignore_accumulators=True):
                         return True
         return False
     out = []
-    for x in ast.walk(fn):
+
+    def walk_no_classes(root):
+        todo = [root]
+        while todo:
+            n = todo.pop()
+            yield n
+            for ch in ast.iter_child_nodes(n):
+                if isinstance(ch, ast.ClassDef):
+                    continue  # a nested class has its own `self`
+                todo.append(ch)
+    for x in walk_no_classes(fn):
         if isinstance(x, (ast.Assign, ast.AugAssign, ast.AnnAssign)):
             tgs = x.targets if isinstance(x, ast.Assign) else [x.target]
             for t in tgs:
